@@ -157,14 +157,22 @@ def finding_matches(f, rec) -> bool:
     return True
 
 
+_REPLAY_CACHE: Dict[str, Any] = {}
+
+
 def run_replay_script(path, timeout=300):
-    """replay scripts exit 1 when the real code violates the contract (defect reproduces), 0 otherwise"""
+    """replay scripts exit 1 when the real code violates the contract (defect reproduces), 0 otherwise
+    (several findings may share one script: it is run once per check run)"""
+    if path in _REPLAY_CACHE:
+        return _REPLAY_CACHE[path]
     py = os.path.join(HERE, ".venv", "bin", "python")
     try:
         p = subprocess.run([py, path], capture_output=True, text=True, timeout=timeout, cwd=HERE)
-        return p.returncode, (p.stdout + p.stderr)[-2000:]
+        res = p.returncode, (p.stdout + p.stderr)[-2000:]
     except subprocess.TimeoutExpired:
-        return 2, "timeout"
+        res = 2, "timeout"
+    _REPLAY_CACHE[path] = res
+    return res
 
 
 # --------------------------------------------------------------------------------------
